@@ -1167,6 +1167,173 @@ def _run_homog(case, ctx):
     ctx.case(case, nontrivial=judged > 0)
 
 
+# ----------------------------------------------------------------------------- dataset-level descriptor menus
+# one dict of dataset-level descriptors per dataset of the list (scalars only: str / int / float / bool)
+DESC_MENUS = {
+    3: [
+        ('same-keys', [{'subj': 'a', 'session': 1}, {'subj': 'b', 'session': 2}, {'subj': 'c', 'session': 3}]),
+        ('same-keys,repeated-values', [{'subj': 'a', 'session': 1}, {'subj': 'b', 'session': 1}, {'subj': 'a', 'session': 2}]),
+        ('all-equal', [{'subj': 'a', 'session': 1}, {'subj': 'a', 'session': 1}, {'subj': 'a', 'session': 1}]),
+        ('key-missing-first', [{'subj': 'a'}, {'subj': 'b', 'session': 2}, {'subj': 'c', 'session': 3}]),
+        ('key-missing-middle', [{'subj': 'a', 'session': 1}, {'subj': 'b'}, {'subj': 'c', 'session': 3}]),
+        ('key-missing-last', [{'subj': 'a', 'session': 1}, {'subj': 'b', 'session': 2}, {'subj': 'c'}]),
+        ('key-only-middle', [{'subj': 'a'}, {'subj': 'b', 'session': 2}, {'subj': 'c'}]),
+        ('key-missing-first-two', [{}, {'subj': 'b'}, {'subj': 'c', 'session': 3}]),
+        ('disjoint-keys', [{'subj': 'a'}, {'run': 2}, {'site': 'x', 'scanner': 7.5}]),
+        ('mixed-types', [{'subj': 'a', 'session': 1}, {'subj': 2, 'session': 's2'}, {'subj': 3.5, 'session': True}]),
+        ('empty-ends', [{}, {'subj': 'b', 'session': 2}, {}]),
+    ],
+    2: [
+        ('same-keys', [{'subj': 'a', 'session': 1}, {'subj': 'b', 'session': 2}]),
+        ('all-equal', [{'subj': 'a', 'session': 1}, {'subj': 'a', 'session': 1}]),
+        ('key-missing-first', [{'subj': 'a'}, {'subj': 'b', 'session': 2}]),
+        ('key-missing-last', [{'subj': 'a', 'session': 1}, {'subj': 'b'}]),
+        ('disjoint-keys', [{'subj': 'a'}, {'run': 2}]),
+        ('mixed-types', [{'subj': 'a', 'session': 1}, {'subj': 2, 'session': 's2'}]),
+        ('empty-first', [{}, {'subj': 'b', 'session': 2}]),
+    ],
+}
+
+
+def _same_value(got, want):
+    """same descriptor value: equal and of the same kind (a string is not a number)"""
+    if isinstance(got, np.generic):
+        got = got.item()
+    if isinstance(want, str) != isinstance(got, str) or isinstance(want, bool) != isinstance(got, bool):
+        return False
+    try:
+        return bool(got == want)
+    except Exception:
+        return False
+
+
+def _run_dsdesc(case, ctx):
+    """lists of 2-3 datasets with different dataset-level descriptor dicts: every returned RDM is identified
+    by its VALUES (per-dataset reference) and must carry exactly the descriptors of that dataset; a key the
+    dataset does not have must be None / absent - never the value of another dataset"""
+    from rsatoolbox.data import Dataset, TemporalDataset
+    from rsatoolbox.rdm import calc_rdm, calc_rdm_movie
+    route = case['route']            # 'descriptor' | 'no-descriptor' | 'movie' | 'movie-unbalanced'
+    menu = dict(DESC_MENUS[case['nds']])[case['menu']]
+    nds, n, n_ch = case['nds'], case['n'], case['P']
+    movie = route.startswith('movie')
+    desc = None if route == 'no-descriptor' else 'cond'
+    names = _naming(max(case['part']) + 1, case['naming'])
+    labels = [names[g] for g in case['part']]
+    nt = case.get('nt', 2)
+    times = _time_axis('small', nt, 'asc')
+    groups = (case.get('bins') or [[t] for t in range(nt)]) if movie else [None]
+    noise, precs = _noise_for_list(case, n_ch, ctx.seed, nds)
+    dss, models = [], []
+    for which in range(nds):
+        shape = (n, n_ch, nt) if movie else (n, n_ch)
+        data = _fill(ctx.seed, shape, 'float', 0, False, key=which + 1)
+        order = list(range(n))
+        if desc and which % 2 == 1:
+            order = order[::-1]
+        data_o = [data[o] for o in order]
+        labs = [labels[o] for o in order]
+        obs = {'cond': _mk(labs, case['container'])}
+        ddesc = dict(menu[which])
+        if movie:
+            dss.append(TemporalDataset(np.array(data_o, dtype=float), descriptors=dict(ddesc), obs_descriptors=obs,
+                                       time_descriptors={'time': np.array(times)}))
+        else:
+            dss.append(Dataset(np.array(data_o, dtype=float), descriptors=dict(ddesc), obs_descriptors=obs))
+        for grp in groups:
+            models.append({'rows': ref.time_slice(data_o, grp) if movie else data_o,
+                           'keys': labs if desc else list(range(n)), 'ddesc': ddesc, 'which': which,
+                           'time': ref.bin_time_value(times, grp) if movie else None,
+                           'opts': _ref_opts(dict(case, rm=False), precs[which])})
+    mm = dict(case, rm=False)
+    op = 'calc_rdm_movie' if movie else 'calc_rdm'
+    cls = ('unbalanced,' if route == 'movie-unbalanced' else '') + 'list-input,dataset-descriptors'
+    snap = _snapshot(dss, noise=noise)
+    if movie:
+        bins = None if case.get('bins') is None else [np.array([times[t] for t in g]) for g in case['bins']]
+        kw = _lib_kwargs(mm, noise, with_rm=False)
+        ok, rdms = _call(ctx, op, cls, case, lambda: calc_rdm_movie(
+            dss, descriptor=desc, bins=bins, unbalanced=(route == 'movie-unbalanced'), **kw))
+    else:
+        kw = _lib_kwargs(mm, noise)
+        ok, rdms = _call(ctx, op, cls, case, lambda: calc_rdm(dss, descriptor=desc, **kw))
+    _check_untouched(ctx, case, op, cls, snap, dss, noise=noise)
+    judged = 0
+    if ok:
+        judged = _judge_dsdesc(ctx, case, op, cls, rdms, models, desc, movie)
+    ctx.case(case, nontrivial=judged > 0)
+
+
+def _judge_dsdesc(ctx, case, op, cls, rdms, models, desc, movie):
+    def fail(kind, msg):
+        ctx.fail('%s|%s|%s' % (op, cls, kind), case, msg)
+
+    if rdms.n_rdm != len(models):
+        fail('n-rdm', '%d RDMs for %d expected' % (rdms.n_rdm, len(models)))
+        return 0
+    ret = list(rdms.pattern_descriptors['cond']) if desc else list(range(rdms.n_cond))
+    nc = len(ret)
+    tables = []
+    for m in models:
+        order, table = ref.expected_table(m['rows'], m['keys'], case['method'], **m['opts'])
+        where = [ref.find_label(lab, order) for lab in ret]
+        tables.append((where, table))
+    # ---- identify every RDM by its values
+    source = []
+    for r in range(rdms.n_rdm):
+        cands = []
+        for mi, (where, table) in enumerate(tables):
+            if None in where or len(where) != len(set(where)):
+                continue
+            n_ok = n_def = 0
+            for i in range(nc):
+                for j in range(i + 1, nc):
+                    a, b = sorted((where[i], where[j]))
+                    want = table[(a, b)]
+                    if want is None:
+                        continue
+                    n_def += 1
+                    n_ok += close(rdms.dissimilarities[r, ref.vector_position(i, j, nc)], want, TOL)
+            if n_def and n_ok == n_def:
+                cands.append(mi)
+        source.append(cands[0] if len(cands) == 1 else None)
+    if None in source or sorted(source) != list(range(len(models))):
+        fail('unidentifiable', 'the values of the returned RDMs do not identify one dataset%s each: %r' % (
+            ' x time point' if movie else '', source))
+        return 0
+    # ---- every RDM carries the dataset-level descriptors of its own dataset, nothing of another one
+    allkeys = []
+    for m in models:
+        for k in m['ddesc']:
+            if k not in allkeys:
+                allkeys.append(k)
+    for r, mi in enumerate(source):
+        m = models[mi]
+        for k in allkeys:
+            present, val = _desc_value(rdms, k, r)
+            if k in m['ddesc']:
+                if not present or val is None:
+                    fail('rdm-descriptor-missing', 'RDM %d was computed from dataset %d whose descriptor %r = %r; '
+                         'returned: %s' % (r, m['which'], k, m['ddesc'][k], 'absent' if not present else 'None'))
+                elif not _same_value(val, m['ddesc'][k]):
+                    other = [o['which'] for o in models if k in o['ddesc'] and _same_value(val, o['ddesc'][k])]
+                    fail('rdm-descriptor-of-another-dataset' if other else 'rdm-descriptor-wrong',
+                         'RDM %d was computed from dataset %d whose descriptor %r = %r, but it is labelled %r%s' % (
+                             r, m['which'], k, m['ddesc'][k], val,
+                             ' (the value of dataset %r)' % other if other else ''))
+            elif present and val is not None and not (isinstance(val, float) and val != val):
+                other = [o['which'] for o in models if k in o['ddesc'] and _same_value(val, o['ddesc'][k])]
+                fail('rdm-descriptor-of-another-dataset' if other else 'rdm-descriptor-wrong',
+                     'RDM %d was computed from dataset %d which has no descriptor %r, but it is labelled %r%s' % (
+                         r, m['which'], k, val, ' (the value of dataset %r)' % other if other else ''))
+        if movie:
+            tv = rdms.rdm_descriptors.get('time')
+            if tv is None or not _same_time(tv[r], m['time']):
+                fail('rdm-time-label', 'RDM %d holds the values of time point %r of dataset %d but is labelled %r' % (
+                    r, m['time'], m['which'], None if tv is None else tv[r]))
+    return rdms.n_rdm
+
+
 # ----------------------------------------------------------------------------- dispatch
 def run_case(case, ctx):
     kind = case['kind']
@@ -1186,6 +1353,8 @@ def run_case(case, ctx):
         _run_movieunb(case, ctx)
     elif kind == 'homog':
         _run_homog(case, ctx)
+    elif kind == 'dsdesc':
+        _run_dsdesc(case, ctx)
     else:
         raise ValueError(kind)
 
@@ -1305,6 +1474,10 @@ def shards(tier, seed):
     for c in EXTREME_SCALES:
         for n_ch in (1, 2, 3):
             out.append({'kind': 'homog', 'c': c, 'P': n_ch})
+    # H3: dataset-level descriptor menus for lists of 2-3 datasets (every RDM identified by its values)
+    for nds in (2, 3):
+        for route in ('descriptor', 'no-descriptor', 'movie', 'movie-unbalanced'):
+            out.append({'kind': 'dsdesc', 'nds': nds, 'route': route})
     # I: condition labels that are large and close together / prefixes of each other
     for tag in LABEL_TAGS:
         for container in ('list', 'nd'):
@@ -1585,6 +1758,26 @@ def run_shard(shard, ctx):
                 run_case(dict(base, desc='cond', **mconf), ctx)
                 if th or (mi + idx) % 2 == 0:
                     run_case(dict(base, desc=None, **mconf), ctx)
+    elif kind == 'dsdesc':
+        nds, route = shard['nds'], shard['route']
+        if route == 'movie-unbalanced':
+            meths = [{'method': 'euclidean', 'rm': False}, {'method': 'mahalanobis', 'prec': 'perds', 'rm': False}]
+        else:
+            meths = [{'method': 'euclidean', 'rm': False}, {'method': 'correlation', 'rm': False},
+                     {'method': 'mahalanobis', 'prec': 'perdsdict', 'rm': False}]
+        structs = [[0, 1], [0, 1, 2], [0, 1, 0], [0, 0, 1], [0, 1, 1]] + ([[0, 1, 2, 0], [0, 1, 1, 2]] if th else [])
+        idx = 0
+        for menu, _ in DESC_MENUS[nds]:
+            for part in structs:
+                idx += 1
+                base = {'kind': 'dsdesc', 'nds': nds, 'route': route, 'menu': menu, 'n': len(part), 'P': 3,
+                        'part': part, 'naming': ('desc', 'str', 'asc')[idx % 3],
+                        'container': 'list' if idx % 2 else 'nd'}
+                if route.startswith('movie'):
+                    base.update(nt=2, bins=(None, [[1], [0]], [[0, 1]])[idx % 3])
+                for mi, mconf in enumerate(meths):
+                    if th or mi == 0 or (mi + idx) % 2 == 0:
+                        run_case(dict(base, **mconf), ctx)
     elif kind == 'labels':
         tag, container = shard['tag'], shard['container']
         confs = [{'method': 'euclidean', 'rm': False}, {'method': 'correlation', 'rm': False},
